@@ -91,6 +91,8 @@ def plan_for(prop, tier, seed):
             P.add(e, "T1")
         for e in _tangle_bw(seed, 8 if q else 48) + _infix_bw(seed, 6 if q else 32):
             P.add(e, "T2", "T34")
+        cwset = ["ab", "ba", "abab", "bbab", "aabb", "babb", "aaab", "bbba", "abba", "baab", "aaaa", "bbbb"]
+        P.add(Entry("cw_blocks_n1", "charwise", "standard", cwset, nfb=1), "T1", "T2")   # char-wise eviction
         if q:
             # evicting multi-block builds, edges only (T1 on 1536 slots: ~20 s)
             P.add(bw("evict3", nfb=1, suffix="_n1"), "T1")
@@ -276,7 +278,7 @@ def plan_for(prop, tier, seed):
         # A-img: whole images with 0 / 1 element per vector, symbolic content (larger images: out of reach)
         P.hand += ["a_img::bw_image_0", "a_img::bw_image_1", "a_img::cw_image_0", "a_img::cw_image_1"]
     elif prop == "C11":
-        vals = (1, 2, 16) if q else (1, 2, 3, 16, 64)
+        vals = (1, 2, 3, 16) if q else (1, 2, 3, 5, 16, 64)     # incl. values that are not powers of two
         fams = ("T1", "T5") if q else ("T1", "T2", "T34", "T6")
         for n in vals:
             P.add(bw("evict3", nfb=n, suffix="_n%d" % n), *fams)
@@ -294,8 +296,10 @@ def plan_for(prop, tier, seed):
                 P.add(Entry("bw_dense_n%d" % n, "bytewise", "standard", dense, nfb=n), "T1")
         # char-wise: small alphabets give tiny blocks, so eviction happens with few patterns
         cwset = ["ab", "ba", "abab", "bbab", "aabb", "babb", "aaab", "bbba", "abba", "baab", "aaaa", "bbbb"]
-        for n in ((1, 16) if q else vals):
+        cw13 = [a + b for a in "あいうえおかきくけこさしす" for b in "あいう"] + ["すすす", "ああい", "いうえお"]
+        for n in ((1, 3, 16) if q else vals):
             P.add(Entry("cw_blocks_n%d" % n, "charwise", "standard", cwset, nfb=n), "T1", "T2", "T34", "T6")
+            P.add(Entry("cw_kana_n%d" % n, "charwise", "standard", cw13, nfb=n), "T1", "T34")
             P.add(Entry("bw_lm_n%d" % n, "bytewise", "longest", corpus.bw_fixed()["evict3"][:300] + [b"ab"], nfb=n), "T1", "T5")
         if not q:
             P.add(bw("evict3", nfb=1, suffix="_e"), "E:m=ovl,L=2")
